@@ -73,6 +73,8 @@ pub struct Deliver {
     pub dup: bool,
     /// True if the receiving endpoint is a real librqbit-utp socket.
     pub to_real: bool,
+    /// True if the network altered the bytes on the way.
+    pub corrupted: bool,
 }
 
 #[derive(Clone, Copy, Debug, PartialEq, Eq, Hash)]
@@ -136,6 +138,8 @@ pub enum Ev {
         dst: SocketAddr,
         len: usize,
         kind: &'static str,
+        /// What the sender tried to send (reference-parser view).
+        pkt: Option<Arc<Pkt>>,
     },
     App(AppEv),
     Probe(ProbeEvent),
@@ -186,6 +190,9 @@ impl History {
                 h.u64(2);
                 h.u64(d.ord);
                 h.u64(d.dup as u64);
+                if d.corrupted {
+                    h.bytes(&d.raw);
+                }
             }
             Ev::SendFail { att, kind, .. } => {
                 h.u64(3);
@@ -271,7 +278,7 @@ pub fn render(h: &History, max: usize, with_probes: bool) -> String {
                 d.pkt.as_ref().map(|p| p.short()).unwrap_or_else(|| format!("<unparseable {}B>", d.raw.len())),
                 if d.dup { " (dup)" } else { "" }
             ),
-            Ev::SendFail { att, src, dst, len, kind } => {
+            Ev::SendFail { att, src, dst, len, kind, .. } => {
                 format!("SENDFAIL att{} {}->{} len={} {}", att, src.port(), dst.port(), len, kind)
             }
             Ev::App(a) => format!("APP    n{} c{} {:?} {:?} => {:?}", a.node, a.conn, a.half, a.kind, a.res),
